@@ -181,6 +181,20 @@ class Program:
         if not pkg.is_dir():
             raise AnalysisError(f"package directory {pkg} not found")
         h = hashlib.sha256()
+        # package-wide fact needed by the normalisation (N20): which attribute names are ever re-bound outside a constructor
+        from . import normalise as _norm
+        raw = []
+        for p in sorted(pkg.rglob("*.py")):
+            rel = str(p.relative_to(self.root))
+            src = overlay.get(rel)
+            if src is None:
+                src = p.read_text(encoding="utf-8")
+            try:
+                raw.append(ast.parse(src, filename=rel))
+            except SyntaxError as e:
+                raise AnalysisError(f"cannot parse {rel}: {e}")
+        _norm.REBOUND_ATTRS = _norm.collect_rebound_attrs(raw)
+        _norm._REBOUND_KNOWN = True
         for p in sorted(pkg.rglob("*.py")):
             rel = str(p.relative_to(self.root))
             src = overlay.get(rel)
